@@ -163,7 +163,7 @@ def src(e):
             arms.append("_: %s" % src(e[2]))
         return "(cond {" + ", ".join(arms) + "})"
     if k == "condpat":
-        return "(cond %s {" % src(e[1]) + ", ".join("%s: %s" % (psrc(p), src(v)) for p, v in e[2]) + "})"
+        return "(cond (%s) {" % src(e[1]) + ", ".join("%s: %s" % (psrc(p), src(v)) for p, v in e[2]) + "})"
     if k == "var":
         return e[1]
     if k == "join":
